@@ -386,4 +386,277 @@ def resolveFields : List SetShape → List ClientVal → List ClientVal
   | _, _ => []
 end
 
+/-! ## Well-formedness: which (shape, decode argument, client value) triples the round trip speaks about -/
+
+mutual
+/-- no `Rest` anywhere below -/
+def restFree : SetShape → Bool
+  | .single .. => true
+  | .opt s => restFree s
+  | .vec s => restFree s
+  | .arr _ s => restFree s
+  | .boxed s => restFree s
+  | .struct fs => restFreeFields fs
+  | .rest _ => false
+def restFreeFields : List SetShape → Bool
+  | [] => true
+  | s :: fs => restFree s && restFreeFields fs
+end
+
+mutual
+/-- the client value has the shape's `ClientAccounts` type -/
+def typed : SetShape → ClientVal → Bool
+  | .single _ _ fk, .key k => k.isSome || fk.isSome
+  | .opt _, .absent => true
+  | .opt s, .present v => typed s v
+  | .vec s, .many vs => vs.all (typed s)
+  | .arr n s, .many vs => vs.length == n && vs.all (typed s)
+  | .rest s, .many vs => vs.all (typed s)
+  | .boxed s, v => typed s v
+  | .struct fs, .many vs => typedFields fs vs
+  | _, _ => false
+def typedFields : List SetShape → List ClientVal → Bool
+  | [], [] => true
+  | s :: fs, v :: vs => typed s v && typedFields fs vs
+  | _, _ => false
+end
+
+mutual
+/-- the decoded value has the shape's type -/
+def svTyped : SetShape → SetVal → Bool
+  | .single .., .acct _ => true
+  | .opt _, .absent => true
+  | .opt s, .present v => svTyped s v
+  | .vec s, .many vs => vs.all (svTyped s)
+  | .arr n s, .many vs => vs.length == n && vs.all (svTyped s)
+  | .rest s, .many vs => vs.all (svTyped s)
+  | .boxed s, v => svTyped s v
+  | .struct fs, .many vs => svTypedFields fs vs
+  | _, _ => false
+def svTypedFields : List SetShape → List SetVal → Bool
+  | [], [] => true
+  | s :: fs, v :: vs => svTyped s v && svTypedFields fs vs
+  | _, _ => false
+end
+
+mutual
+/-- the decode argument has the type the shape's decode takes -/
+def argTyped : SetShape → DecodeArg → Bool
+  | .single .., .unit => true
+  | .opt s, a => argTyped s a
+  | .vec s, .len _ inner => argTyped s inner
+  | .arr _ s, a => argTyped s a
+  | .rest s, a => argTyped s a
+  | .boxed s, a => argTyped s a
+  | .struct fs, .fields as => argTypedFields fs as
+  | _, _ => false
+def argTypedFields : List SetShape → List DecodeArg → Bool
+  | [], [] => true
+  | s :: fs, a :: as => argTyped s a && argTypedFields fs as
+  | _, _ => false
+end
+
+/-- first meta exists and is not the program id (what a *present* optional needs to be seen as present) -/
+def headNotPid (pid : Key) (ms : List Meta) : Bool :=
+  match ms with
+  | [] => false
+  | m :: _ => m.key != pid
+
+mutual
+/-- `fits pid s arg v`: `v` has type `s`, `arg` is the decode argument describing `v` (vector
+lengths), and the side conditions of the round trip hold:
+* a present optional's metas are non-empty and do not start with the program id (otherwise the
+  placeholder encoding makes it decode as absent — inherent);
+* `Rest` occurs only in tail position (it swallows every remaining account) and each of its elements
+  uses at least one account (otherwise the `while` loop never ends). -/
+def fits (pid : Key) : SetShape → DecodeArg → ClientVal → Bool
+  | .single _ _ fk, .unit, .key k => k.isSome || fk.isSome
+  | .opt _, _, .absent => true
+  | .opt s, a, .present v => fits pid s a v && headNotPid pid (clientMetas pid s v)
+  | .vec s, .len n inner, .many vs => vs.length == n && restFree s && vs.all (fits pid s inner)
+  | .arr n s, a, .many vs => vs.length == n && restFree s && vs.all (fits pid s a)
+  | .rest s, a, .many vs => restFree s && vs.all (fun v => fits pid s a v && !(clientMetas pid s v).isEmpty)
+  | .boxed s, a, v => fits pid s a v
+  | .struct fs, .fields as, .many vs => fitsFields pid fs as vs
+  | _, _, _ => false
+def fitsFields (pid : Key) : List SetShape → List DecodeArg → List ClientVal → Bool
+  | [], [], [] => true
+  | s :: fs, a :: as, v :: vs => fits pid s a v && (fs.isEmpty || restFree s) && fitsFields pid fs as vs
+  | _, _, _ => false
+end
+
+mutual
+/-- no explicit client key contradicts a fixed address -/
+def addrOk : SetShape → ClientVal → Bool
+  | .single _ _ fk, .key k => fk.isNone || k.isNone || k == fk
+  | .opt _, .absent => true
+  | .opt s, .present v => addrOk s v
+  | .vec s, .many vs => vs.all (addrOk s)
+  | .arr _ s, .many vs => vs.all (addrOk s)
+  | .rest s, .many vs => vs.all (addrOk s)
+  | .boxed s, v => addrOk s v
+  | .struct fs, .many vs => addrOkFields fs vs
+  | _, _ => true
+def addrOkFields : List SetShape → List ClientVal → Bool
+  | s :: fs, v :: vs => addrOk s v && addrOkFields fs vs
+  | _, _ => true
+end
+
+mutual
+/-- the decode argument a client sends for its value (vector lengths; the first element's argument
+stands for all elements, which is what `fits` demands) -/
+def argOf : SetShape → ClientVal → DecodeArg
+  | .single .., _ => .unit
+  | .opt s, .present v => argOf s v
+  | .opt s, _ => defaultArg s
+  | .vec s, .many vs => .len vs.length (match vs with | v :: _ => argOf s v | [] => defaultArg s)
+  | .arr _ s, .many vs => (match vs with | v :: _ => argOf s v | [] => defaultArg s)
+  | .rest s, .many vs => (match vs with | v :: _ => argOf s v | [] => defaultArg s)
+  | .boxed s, v => argOf s v
+  | .struct fs, .many vs => .fields (argOfFields fs vs)
+  | _, _ => .unit
+def argOfFields : List SetShape → List ClientVal → List DecodeArg
+  | s :: fs, v :: vs => argOf s v :: argOfFields fs vs
+  | s :: fs, [] => defaultArg s :: argOfFields fs []
+  | [], _ => []
+def defaultArg : SetShape → DecodeArg
+  | .single .. => .unit
+  | .opt s => defaultArg s
+  | .vec s => .len 0 (defaultArg s)
+  | .arr _ s => defaultArg s
+  | .rest s => defaultArg s
+  | .boxed s => defaultArg s
+  | .struct fs => .fields (defaultArgFields fs)
+def defaultArgFields : List SetShape → List DecodeArg
+  | [] => []
+  | s :: fs => defaultArg s :: defaultArgFields fs
+end
+
+/-! ## Instruction data: discriminant ++ borsh(decode argument) ++ borsh(run arguments) -/
+
+mutual
+/-- borsh of a decode argument: `()` is empty, `(usize, T)` is a `u64` then `T`, structs concatenate -/
+def serArg : DecodeArg → List Nat
+  | .unit => []
+  | .len n inner => leN 8 n ++ serArg inner
+  | .fields as => serArgs as
+def serArgs : List DecodeArg → List Nat
+  | [] => []
+  | a :: as => serArg a ++ serArgs as
+end
+
+mutual
+/-- borsh deserialization of the decode argument of a shape -/
+def deArg : SetShape → List Nat → Option (DecodeArg × List Nat)
+  | .single .., bs => some (.unit, bs)
+  | .opt s, bs => deArg s bs
+  | .vec s, bs =>
+    if bs.length < 8 then none
+    else match deArg s (bs.drop 8) with
+      | none => none
+      | some (inner, r) => some (.len (rdLE (bs.take 8)) inner, r)
+  | .arr _ s, bs => deArg s bs
+  | .rest s, bs => deArg s bs
+  | .boxed s, bs => deArg s bs
+  | .struct fs, bs =>
+    match deArgFields fs bs with
+    | none => none
+    | some (as, r) => some (.fields as, r)
+def deArgFields : List SetShape → List Nat → Option (List DecodeArg × List Nat)
+  | [], bs => some ([], bs)
+  | s :: fs, bs =>
+    match deArg s bs with
+    | none => none
+    | some (a, r) =>
+      match deArgFields fs r with
+      | none => none
+      | some (as, r') => some (a :: as, r')
+end
+
+mutual
+/-- every vector length fits a `u64` -/
+def argInRange : DecodeArg → Bool
+  | .unit => true
+  | .len n inner => decide (n < 256 ^ 8) && argInRange inner
+  | .fields as => argsInRange as
+def argsInRange : List DecodeArg → Bool
+  | [] => true
+  | a :: as => argInRange a && argsInRange as
+end
+
+/-- the run arguments of the harness instructions: `{ a: u8, b: u64, c: bool, d: Vec<u8> }` -/
+structure RunArgs where
+  a : Nat
+  b : Nat
+  c : Bool
+  d : List Nat
+deriving Repr, DecidableEq
+
+def RunArgs.WF (r : RunArgs) : Prop := r.a < 256 ∧ r.b < 256 ^ 8 ∧ r.d.length < 256 ^ 4 ∧ BytesWF r.d
+
+def serRun (r : RunArgs) : List Nat :=
+  r.a :: (leN 8 r.b ++ ((if r.c then 1 else 0) :: (leN 4 r.d.length ++ r.d)))
+
+def deRun (bs : List Nat) : Option (RunArgs × List Nat) :=
+  match bs with
+  | [] => none
+  | a :: bs =>
+    if bs.length < 8 then none
+    else
+      let b := rdLE (bs.take 8)
+      match bs.drop 8 with
+      | [] => none
+      | c :: bs =>
+        if c ≠ 0 ∧ c ≠ 1 then none
+        else if bs.length < 4 then none
+        else
+          let n := rdLE (bs.take 4)
+          let bs := bs.drop 4
+          if bs.length < n then none
+          else some ({ a := a, b := b, c := (c == 1), d := bs.take n }, bs.drop n)
+
+/-- `InstructionSet::dispatch`: read the 8 discriminant bytes, pick the instruction with that
+discriminant (the `match` arms are pairwise distinct constants), hand it the rest. -/
+def dispatch (table : List (List Nat)) (data : List Nat) : Option (Nat × List Nat) :=
+  if data.length < 8 then none
+  else
+    let i := table.findIdx (· == data.take 8)
+    if i < table.length then some (i, data.drop 8) else none
+
+/-- `client::star_frame_instruction_data` / `CpiBuilder::invoke_signed`: discriminant ++ borsh. -/
+def ixData (disc : List Nat) (payload : List Nat) : List Nat := disc ++ payload
+
+inductive EntryErr
+  | badData            -- discriminant / borsh failure: `InvalidInstructionData` & co.
+  | decode (e : E)
+deriving Repr
+
+structure RunOut where
+  used : Nat
+  rem : Nat
+  val : SetVal
+  v : Except VErr Unit
+  args : RunArgs
+deriving Repr
+
+/-- The program's entry path for the harness instruction of a set: dispatch, borsh-decode
+`{ d: decode arg, r: run args }`, decode the accounts, validate them. -/
+def entry (table : List (List Nat)) (idx : Nat) (pid : Key) (s : SetShape) (data : List Nat)
+    (accts : List Acct) : Except EntryErr RunOut :=
+  match dispatch table data with
+  | none => .error .badData
+  | some (i, payload) =>
+    if i ≠ idx then .error .badData
+    else match deArg s payload with
+      | none => .error .badData
+      | some (arg, r) =>
+        match deRun r with
+        | none => .error .badData
+        | some (run, _) =>
+          match decode pid s arg accts with
+          | .error e => .error (.decode e)
+          | .ok (sv, rest) =>
+            .ok { used := accts.length - rest.length, rem := rest.length, val := sv,
+                  v := validate s sv, args := run }
+
 end Account.Sets
